@@ -133,6 +133,34 @@ def assigned_inside(x):
     return False
 
 
+def content_free(x):
+    """x holds no content: no element in any container, no scalar different from its default, at any depth (decided by
+    walking the raw slots, not by the implementation's ==)"""
+    import dataclasses
+    for fld in dataclasses.fields(x):
+        try:
+            v = x._Message__raw_get(fld.name)
+        except AttributeError:
+            continue
+        if v is betterproto.PLACEHOLDER or v is None:
+            continue
+        if isinstance(v, betterproto.Message):
+            if not content_free(v):
+                return False
+        elif isinstance(v, (list, dict)):
+            if v:
+                return False
+        elif isinstance(v, (int, float, str, bytes, bool)) and not isinstance(v, betterproto.Enum):
+            if v or (isinstance(v, float) and str(v) == "-0.0"):
+                return False
+        elif isinstance(v, betterproto.Enum):
+            if int(v):
+                return False
+        else:
+            return False     # datetime / timedelta …: content
+    return not x._unknown_fields
+
+
 def _d49():
     """m.a.b.x = 0: b is present, a is a lazily created holder with nothing but b's presence inside"""
     schema = [bpgen.M("M0", [bpgen.F("a", 1, "message", kind="u1")]),
@@ -177,7 +205,7 @@ def inplace_presence(chk, rng, b, ci, inp0):
                 chk.count("inplace_assigned_inside_%d" % ai)
                 if ai != ow:
                     # presence_only: the holder's VALUE is still the default — all that was assigned inside is presence further down
-                    chk.fail("assigned-inside-not-reported", dict(inp, field=f.name, presence_only=bool(ai and sub == type(sub)())),
+                    chk.fail("assigned-inside-not-reported", dict(inp, field=f.name, presence_only=bool(ai and content_free(sub))),
                              "something assigned inside=%s serialized_on_wire=%s emitted=%s bytes=%s" % (ai, ow, emitted, data.hex()))
         try:
             back = cls().parse(data)
